@@ -11,6 +11,7 @@ Inductive fexpr :=
 | FLeaf (l r u : list R)                 (* a p-box (l, r) together with a sample u of the quantity it describes *)
 | FAddc (e : fexpr) (c : R) | FSubc (e : fexpr) (c : R) | FRsubc (c : R) (e : fexpr) | FMulc (e : fexpr) (c : R)
 | FNeg (e : fexpr)
+| FMap (f : R -> R) (dom : R -> bool) (e : fexpr)   (* a nondecreasing map (exp, ...) applied to both bounds *)
 | FBin (o : bop) (e1 e2 : fexpr).
 
 Fixpoint erase (e : fexpr) : pexpr RN :=
@@ -19,6 +20,7 @@ Fixpoint erase (e : fexpr) : pexpr RN :=
   | FAddc e c => ENum RN KAdd (erase e) c | FSubc e c => ENum RN KSub (erase e) c
   | FRsubc c e => ENum RN KRSub (erase e) c | FMulc e c => ENum RN KMul (erase e) c
   | FNeg e => ENeg RN (erase e)
+  | FMap f dom e => EMap RN f dom (erase e)
   | FBin o e1 e2 => EBin RN o DF (erase e1) (erase e2)
   end.
 (* the expression computed outcome by outcome *)
@@ -28,12 +30,14 @@ Fixpoint sample (e : fexpr) : list R :=
   | FAddc e c => map (fun a => a + c) (sample e) | FSubc e c => map (fun a => a - c) (sample e)
   | FRsubc c e => map (fun a => c - a) (sample e) | FMulc e c => map (fun a => a * c) (sample e)
   | FNeg e => map Ropp (sample e)
+  | FMap f _ e => map f (sample e)
   | FBin o e1 e2 => map2 (match o with Add => Rplus | Sub => Rminus | Mul => Rmult | Div => Rdiv end) (sample e1) (sample e2)
   end.
 Fixpoint leaves_ok (steps : nat) (e : fexpr) : Prop :=
   match e with
   | FLeaf l r u => length l = steps /\ length r = steps /\ bounds l r u
   | FAddc e _ | FSubc e _ | FRsubc _ e | FMulc e _ | FNeg e => leaves_ok steps e
+  | FMap f _ e => (forall a b, a <= b -> f a <= f b) /\ leaves_ok steps e
   | FBin _ e1 e2 => leaves_ok steps e1 /\ leaves_ok steps e2
   end.
 
@@ -45,7 +49,7 @@ Notation S_ := (snd_ steps).
 
 Theorem expression_sound : forall e r, leaves_ok steps e -> peval RN steps plo phi (erase e) = Ok r -> S_ r (sample e).
 Proof.
-  induction e as [l r0 u|e IH c|e IH c|c e IH|e IH c|e IH|o e1 IH1 e2 IH2]; intros r HL; cbn [erase peval sample leaves_ok] in *.
+  induction e as [l r0 u|e IH c|e IH c|c e IH|e IH c|e IH|f dom e IH|o e1 IH1 e2 IH2]; intros r HL; cbn [erase peval sample leaves_ok] in *.
   - destruct HL as (Hl & Hr & HB). intros E. unfold mk_staircase in E. eapply mk_sound; [exact Hl|exact Hr|left; exact HB|exact E].
   - destruct (peval RN steps plo phi (erase e)) as [p| |] eqn:Ep; cbn [rbind]; try discriminate. cbn [num_eval].
     apply (pnum_add_sound steps plo phi p _ c r). apply IH; auto.
@@ -61,6 +65,12 @@ Proof.
     apply (pnum_mul_sound steps plo phi p _ c r). apply IH; auto.
   - destruct (peval RN steps plo phi (erase e)) as [p| |] eqn:Ep; cbn [rbind]; try discriminate.
     apply (pneg_sound steps plo phi p _ r). apply IH; auto.
+  - destruct HL as (Hf & HL).
+    destruct (peval RN steps plo phi (erase e)) as [p| |] eqn:Ep; cbn [rbind]; try discriminate. unfold map_eval.
+    match goal with |- (if ?c then _ else _) = _ -> _ => destruct c end; [|discriminate]. intros E.
+    specialize (IH p HL eq_refl). destruct (S_len steps p _ IH) as (Hl & Hr & Hu).
+    unfold punary, mk_staircase in E. eapply mk_sound; [| |left|exact E]; rewrite ?map_length; auto.
+    apply bounds_map_incr; [exact Hf|exact (proj2 IH)].
   - destruct HL as (HL1 & HL2).
     destruct (peval RN steps plo phi (erase e1)) as [p| |] eqn:Ep; cbn [rbind]; try discriminate.
     destruct (peval RN steps plo phi (erase e2)) as [q| |] eqn:Eq; cbn [rbind]; try discriminate.
